@@ -27,43 +27,43 @@ theorem nextTi_trunc (be : Bool) (v : Val) (hw : v.wf = true) (j : Nat) (hj : j 
   | bool x =>
     have : j = 0 := by simp [Val.body, Val.hasLen, Val.bytes] at hj; omega
     subst this
-    cases x <;> simp [nextTi, Val.ti, Val.body, has, tyleLen, Gen.tiBool, Gen.tiVari, Gen.tiFixp, Gen.tiMaskTyle]
+    cases x <;> simp [nextTi, Val.ti, Val.body, has, tyleLen, Gen.tiBool, Gen.tiVari, Gen.tiFixp, Gen.tiAray, Gen.tiTrai, Gen.tiStru, Gen.tiMaskTyle]
   | uint t r =>
     simp only [Val.wf, Bool.and_eq_true, decide_eq_true_eq, beq_iff_eq] at hw
     obtain ⟨⟨h1, h2⟩, h3⟩ := hw
     simp only [Val.body, Val.hasLen, Bool.false_eq_true, if_false, List.nil_append, Val.bytes] at hj ⊢
     have ht : t = 1 ∨ t = 2 ∨ t = 3 ∨ t = 4 := by omega
     rcases ht with rfl | rfl | rfl | rfl <;>
-      simp [nextTi, Val.ti, has, tyleLen, widthOf, Gen.tiBool, Gen.tiVari, Gen.tiFixp, Gen.tiMaskTyle, Gen.tiUint, Gen.tiSint] at h3 ⊢ <;> omega
+      simp [nextTi, Val.ti, has, tyleLen, widthOf, Gen.tiBool, Gen.tiVari, Gen.tiFixp, Gen.tiAray, Gen.tiTrai, Gen.tiStru, Gen.tiMaskTyle, Gen.tiUint, Gen.tiSint] at h3 ⊢ <;> omega
   | sint t r =>
     simp only [Val.wf, Bool.and_eq_true, decide_eq_true_eq, beq_iff_eq] at hw
     obtain ⟨⟨h1, h2⟩, h3⟩ := hw
     simp only [Val.body, Val.hasLen, Bool.false_eq_true, if_false, List.nil_append, Val.bytes] at hj ⊢
     have ht : t = 1 ∨ t = 2 ∨ t = 3 ∨ t = 4 := by omega
     rcases ht with rfl | rfl | rfl | rfl <;>
-      simp [nextTi, Val.ti, has, tyleLen, widthOf, Gen.tiBool, Gen.tiVari, Gen.tiFixp, Gen.tiMaskTyle, Gen.tiUint, Gen.tiSint] at h3 ⊢ <;> omega
+      simp [nextTi, Val.ti, has, tyleLen, widthOf, Gen.tiBool, Gen.tiVari, Gen.tiFixp, Gen.tiAray, Gen.tiTrai, Gen.tiStru, Gen.tiMaskTyle, Gen.tiUint, Gen.tiSint] at h3 ⊢ <;> omega
   | floa t r =>
     simp only [Val.wf, Bool.and_eq_true, Bool.or_eq_true, beq_iff_eq] at hw
     obtain ⟨ht, h3⟩ := hw
     simp only [Val.body, Val.hasLen, Bool.false_eq_true, if_false, List.nil_append, Val.bytes] at hj ⊢
     rcases ht with rfl | rfl <;>
-      simp [nextTi, Val.ti, has, tyleLen, widthOf, Gen.tiBool, Gen.tiVari, Gen.tiFixp, Gen.tiMaskTyle, Gen.tiUint, Gen.tiSint, Gen.tiFloa] at h3 ⊢ <;> omega
+      simp [nextTi, Val.ti, has, tyleLen, widthOf, Gen.tiBool, Gen.tiVari, Gen.tiFixp, Gen.tiAray, Gen.tiTrai, Gen.tiStru, Gen.tiMaskTyle, Gen.tiUint, Gen.tiSint, Gen.tiFloa] at h3 ⊢ <;> omega
   | utf8 s =>
     simp only [Val.wf, decide_eq_true_eq] at hw
-    exact strg_trunc be (Gen.tiStrg + Gen.scodUtf8) s hw j (by simpa [Val.body, Val.hasLen, Val.bytes] using hj) (by decide) (by decide) (by decide) (by decide) (by decide) (by decide)
+    exact strg_trunc be (Gen.tiStrg + Gen.scodUtf8) s hw j (by simpa [Val.body, Val.hasLen, Val.bytes] using hj) (by decide) (by decide) (by decide) (by decide) (by decide) (by decide) (by decide)
   | ascii s =>
     simp only [Val.wf, decide_eq_true_eq] at hw
-    exact strg_trunc be (Gen.tiStrg + Gen.scodAscii) s hw j (by simpa [Val.body, Val.hasLen, Val.bytes] using hj) (by decide) (by decide) (by decide) (by decide) (by decide) (by decide)
+    exact strg_trunc be (Gen.tiStrg + Gen.scodAscii) s hw j (by simpa [Val.body, Val.hasLen, Val.bytes] using hj) (by decide) (by decide) (by decide) (by decide) (by decide) (by decide) (by decide)
   | raw s =>
     simp only [Val.wf, decide_eq_true_eq] at hw
-    exact strg_trunc be Gen.tiRawd s hw j (by simpa [Val.body, Val.hasLen, Val.bytes] using hj) (by decide) (by decide) (by decide) (by decide) (by decide) (by decide)
+    exact strg_trunc be Gen.tiRawd s hw j (by simpa [Val.body, Val.hasLen, Val.bytes] using hj) (by decide) (by decide) (by decide) (by decide) (by decide) (by decide) (by decide)
 where
   strg_trunc (be : Bool) (ti : Nat) (s : Bytes) (hs : s.length < 65536) (j : Nat) (hj : j < (wr16 be s.length ++ s).length)
-      (h1 : has ti Gen.tiVari = false) (h2 : has ti Gen.tiFixp = false) (h3 : has ti Gen.tiBool = false)
+      (h1 : has ti Gen.tiVari = false) (h2 : has ti Gen.tiFixp = false) (h2b : has ti (Gen.tiAray + Gen.tiTrai + Gen.tiStru) = false) (h3 : has ti Gen.tiBool = false)
       (h4 : has ti (Gen.tiSint + Gen.tiUint) = false) (h5 : has ti Gen.tiFloa = false)
       (h6 : has ti (Gen.tiStrg + Gen.tiRawd) = true) :
       nextTi ti ((wr16 be s.length ++ s).take j) be = none := by
-    simp only [nextTi, h1, h2, h3, h4, h5, h6, Bool.false_eq_true, if_false, if_true]
+    simp only [nextTi, h1, h2, h2b, h3, h4, h5, h6, Bool.false_eq_true, if_false, if_true]
     obtain ⟨l1, l2, e1, e2⟩ := rd16_wr16 be s.length hs s
     rw [e1] at hj ⊢
     match j, hj with
